@@ -1,4 +1,6 @@
 """C13 — array indexing and slicing follow Python nested-list semantics."""
+import collections
+import copy
 import itertools
 
 import vlib
@@ -9,7 +11,15 @@ RULE = ("correspondence: every (shape, key) case is run through cspuz's IntArray
         "search: the same keys on real Python lists of lists (axis-checked) vs the implementation, and the Coq "
         "specification spec_getitem2 vs real Python lists.  A case is non-trivial when it is a distinct "
         "(kind, shape, key) triple; keys are int indices in [-len-2, len+1], slices with bounds in "
-        "[-B, B] + None and steps in [-S, S] + None (0 included), pairs of those, and coordinate lists.")
+        "[-B, B] + None and steps in [-S, S] + None (0 included), pairs of those, and coordinate lists.  "
+        "Hardening stream (same two ties, the key is additionally tagged with its FORM): coordinate keys given as "
+        "one-shot / non-list iterables (zip, generator, iter, map, reversed, filter, chain, islice, deque, dict view, "
+        "user iterator, list subclass, namedtuple pairs) -- the model and the nested-list oracle see the materialised "
+        "list; ints created at run time far outside the small-int cache (257 .. 10**30) as indices, slice bounds, "
+        "steps, coordinates, on axes of length 260/300 too; bool / int-subclass / __index__ keys; larger shapes "
+        "(3x10, 10x3, 7x7, 4x5, 5x5, 2x7) with steps up to +-5 and (slice, slice) pairs non-trivial on BOTH axes; "
+        "chained indexing a[k1][k2]; histories (same key object twice, result mutated then re-indexed, array data and "
+        "key unchanged, flatten/reshape/1-D slices do not alias); arrays constructed from nested one-shot iterables.")
 TRUSTED = [
     "CPython slice.indices / range / list indexing semantics as transcribed in Array/Slice.v (slice_indices, py_range, py_index); validated on every run against the real interpreter (kind 'spec-vs-pylist')",
     "reading of the property: an integer index on an axis raises IndexError exactly when it is out of range for that axis (also when the other axis selects nothing)",
@@ -17,6 +27,8 @@ TRUSTED = [
 ASSUMPTIONS = [
     "array elements are opaque; the model is polymorphic in the element type",
     "keys are ints / slices of ints-or-None / pairs / lists of int pairs (other key types raise TypeError in Python and are outside the model)",
+    "an iterable of coordinate pairs stands for the list of the pairs it yields (the model and the oracle see list(key)); a second use of an exhausted one-shot key selects nothing, as the comprehension over it would",
+    "bool / int-subclass indices and __index__ slice bounds stand for their integer value (as they do for Python lists)",
 ]
 
 ERR = {1: "IndexError", 2: "KeyError", 3: "AssertionError", 4: "TypeError", 5: "ValueError",
@@ -34,12 +46,14 @@ def parse_reply(r):
     if t[0] == "2":
         i = t.index(":")
         return ("ok", ("2", int(t[1]), int(t[2]), tuple(int(x) for x in t[i + 1:])))
+    if t[0] == "EXN":
+        return ("exn", r)
     raise RuntimeError("bad model reply " + r)
 
 
 def key_tok(k):
     if isinstance(k, int):
-        return "i %d" % k
+        return "i %d" % int(k)
     f = lambda v: "_" if v is None else str(v)  # noqa
     return "s %s %s %s" % (f(k.start), f(k.stop), f(k.step))
 
@@ -91,9 +105,22 @@ def impl_get(arr, idx, k):
     return vlib.guarded(f)
 
 
-def pylist_get(h, w, k):
+def pylist_get1(vals, k):
+    """the reference for a 1-D array: the same index on a real Python list."""
+    lst = list(vals)
+
+    def f():
+        r = lst[k]
+        return ("1", tuple(r)) if isinstance(k, slice) else ("S", r)
+    return vlib.guarded(f)
+
+
+def pylist_get(h, w, k, vals=None):
     """the reference: the same index on a real Python list of lists."""
-    rows = [[y * w + x for x in range(w)] for y in range(h)]
+    if vals is None:
+        rows = [[y * w + x for x in range(w)] for y in range(h)]
+    else:
+        rows = [list(vals[y * w:(y + 1) * w]) for y in range(h)]
 
     def axis_check(n, i):
         if isinstance(i, int) and not (-n <= i < n):
@@ -162,28 +189,540 @@ def gen_cases(ctx):
             yield h, w, [(rng.randint(-h - 1, h), rng.randint(-w - 1, w)) for _ in range(n)]
 
 
+# ------------------------------------------------------------------ hardening stream: key forms
+
+class _I(int):
+    """an int subclass (IntEnum-like): a legal index wherever an int is."""
+
+
+class _Idx:
+    """not an int, but a legal slice bound through __index__ (numpy-integer-like)."""
+
+    def __init__(self, v):
+        self.v = v
+
+    def __index__(self):
+        return self.v
+
+    def __eq__(self, o):
+        return isinstance(o, _Idx) and o.v == self.v
+
+    def __hash__(self):
+        return hash(self.v)
+
+    def __repr__(self):
+        return "_Idx(%d)" % self.v
+
+
+class _OneShot:
+    """a user-defined iterator (can be consumed once)."""
+
+    def __init__(self, l):
+        self.it = iter(list(l))
+
+    def __iter__(self):
+        return self
+
+    def __next__(self):
+        return next(self.it)
+
+
+class _ReIter:
+    """a user-defined iterable that is not a sequence (only __iter__)."""
+
+    def __init__(self, l):
+        self.l = list(l)
+
+    def __iter__(self):
+        return iter(self.l)
+
+
+class _L(list):
+    pass
+
+
+_P = collections.namedtuple("_P", "y x")
+
+
+def _fresh(v):
+    """an int object created at run time (never a shared constant; outside [-5, 256] never a cached one)."""
+    return int(str(int(v)))
+
+
+def _b(v):
+    return bool(v) if v in (0, 1) else v
+
+
+def _genfn(l):
+    for p in l:
+        yield p
+
+
+COORD_FORMS = {
+    "list": lambda k: k,
+    "zip": lambda k: zip([p[0] for p in k], [p[1] for p in k]),
+    "gen": lambda k: (p for p in k),
+    "genfn": _genfn,
+    "iter": lambda k: iter(k),
+    "map": lambda k: map(tuple, [list(p) for p in k]),
+    "reversed": lambda k: reversed(k[::-1]),
+    "filter": lambda k: filter(None, k),
+    "chain": lambda k: itertools.chain(k[:len(k) // 2], iter(k[len(k) // 2:])),
+    "islice": lambda k: itertools.islice(iter(k), None),
+    "oneshot": _OneShot,
+    "deque": collections.deque,
+    "dictvalues": lambda k: dict(enumerate(k)).values(),
+    "reiter": _ReIter,
+    "listsub": _L,
+    "namedtuple": lambda k: [_P(y, x) for (y, x) in k],
+    "intsub": lambda k: [(_I(y), _I(x)) for (y, x) in k],
+    "bool": lambda k: [(_b(y), _b(x)) for (y, x) in k],
+}
+ONE_SHOT = ("zip", "gen", "genfn", "iter", "map", "reversed", "filter", "chain", "islice", "oneshot")
+# forms that keep the entries as they are (usable for malformed entries too)
+STRUCT_FORMS = ("gen", "genfn", "iter", "reversed", "chain", "islice", "oneshot", "deque", "dictvalues", "reiter", "listsub")
+PAIR_FORMS = ("fresh", "intsub", "bool", "index")
+
+
+def dress_axis(a, form):
+    conv = {"fresh": _fresh, "intsub": _I, "bool": _b, "index": _Idx}[form]
+    if isinstance(a, int):
+        return a if form == "index" else conv(a)   # an __index__ object is not an int index for cspuz
+    f = lambda v: None if v is None else conv(v)  # noqa
+    return slice(f(a.start), f(a.stop), f(a.step))
+
+
+def dress(k, form):
+    """a new key object for the canonical key k (ints / None only) in the given form."""
+    if form is None:
+        return k
+    if isinstance(k, list):
+        return COORD_FORMS[form]([(_fresh(y), _fresh(x)) for (y, x) in k])
+    if isinstance(k, tuple):
+        return (dress_axis(k[0], form), dress_axis(k[1], form))
+    return dress_axis(k, form)
+
+
+def kk_of(k):
+    return ("L", tuple(k)) if isinstance(k, list) else key_repr(k)
+
+
+BIGS = [257, 258, 1000, 4096, 65535, 2 ** 31 - 1, 2 ** 31, 2 ** 32 + 1, 2 ** 63 - 1, 2 ** 63, 2 ** 64 + 3, 10 ** 30]
+BIG_STEPS = [None, 1, -1, 2, -2, 3, -5, 128, -129, 256, 257, -257, 258, -1000, 2 ** 31, -2 ** 31, 2 ** 63,
+             -2 ** 63 - 1, 2 ** 64 + 3, -10 ** 30]
+S2 = [(2, 3), (3, 1), (0, 2), (1, 300), (300, 1), (2, 260)]
+S5 = [(3, 10), (10, 3), (7, 7), (4, 5), (5, 5), (2, 7)]
+S1 = [(2, 3), (4, 6), (3, 3), (1, 1), (0, 0), (0, 2), (1, 300)]
+SMALL = [(h, w) for h in range(0, 4) for w in range(0, 4)] + [(1, 5), (5, 1), (2, 5), (3, 4)]
+ALL_STEPS = [None, 1, 2, 3, 4, 5, -1, -2, -3, -4, -5]
+STRIDES = [2, 3, 4, 5, -2, -3, -4, -5]
+
+
+def big_axis_keys(n, rng, nsl):
+    near = sorted({n - 2, n - 1, n, n + 1, -n + 1, -n, -n - 1, -n - 2, 0, 1, -1, 255, 256, 257, -255, -256, -257, -258})
+    big = BIGS + [-v for v in BIGS]
+    bounds = [None] + near + big
+    sl = [slice(rng.choice(bounds), rng.choice(bounds), rng.choice(BIG_STEPS)) for _ in range(nsl)]
+    if n > 256:   # the interior of a long axis: valid positions that are not small ints
+        sl += [slice(257, None), slice(None, 257), slice(n - 1, 256, -1), slice(-1, -n + 256, -7), slice(256, 258),
+               slice(258, 256, -1), slice(None, None, 129), slice(None, None, -129), slice(257, n, 13),
+               slice(-n + 257, None, 1), slice(n + 2 ** 64, 257, -3)]
+    return near + big, sl
+
+
+def cand(n):
+    return [None, 0, 1, 2, n // 2, n - 2, n - 1, n, n + 1, n + 3, -1, -2, -n + 1, -n, -n - 1, -n - 3]
+
+
+def rand_slice(n, rng, steps=ALL_STEPS):
+    c = cand(n)
+    return slice(rng.choice(c), rng.choice(c), rng.choice(steps))
+
+
+def rand_axis_key(n, rng):
+    if rng.random() < 0.35:
+        return rng.randint(-n - 1, n)
+    return rand_slice(n, rng)
+
+
+def rand_coords(h, w, rng, n=None, p_bad=0.1):
+    n = rng.randint(0, 5) if n is None else n
+    out = []
+    for _ in range(n):
+        if h and w and rng.random() >= p_bad:
+            out.append((rng.randint(-h, h - 1), rng.randint(-w, w - 1)))
+        else:
+            out.append((rng.randint(-h - 1, h), rng.randint(-w - 1, w)))
+    return out
+
+
+def rand_key2(h, w, rng):
+    r = rng.random()
+    if r < 0.15:
+        return rand_axis_key(h, rng)
+    if r < 0.3:
+        return rand_coords(h, w, rng)
+    return (rand_axis_key(h, rng), rand_axis_key(w, rng))
+
+
+def coord_lists(h, w, rng):
+    """coordinate lists for the one-shot forms: empty, short, long, duplicates, one off-board pair at each position."""
+    def valid():
+        return (rng.randint(-h, h - 1), rng.randint(-w, w - 1))
+
+    def oor():
+        return rng.choice([(h, 0), (0, w), (-h - 1, 0), (0, -w - 1), (h + 300, w + 300), (-2 ** 40, 0), (0, 10 ** 20),
+                           (h - 1, 2 ** 64), (-2 ** 63 - 1, -1)])
+    out = [[]]
+    if h and w:
+        out.append([valid()])
+        for n in (2, 3, 6):
+            out.append([valid() for _ in range(n)])
+        v = [valid() for _ in range(4)]
+        out.append(v + v[::-1] + v[:1])
+        out.append([valid() for _ in range(rng.randint(25, 40))])
+        out.append([(y, x) for y in range(h) for x in range(w)][-64:])
+        out.append([(y % h, (w - 1 - y) % w) for y in range(max(h, w))])      # anti-diagonal
+        if w > 256:
+            out.append([(0, 256), (0, 257), (-1, -257), (0, w - 1), (0, -w), (0, 299 - 42)])
+        base = [valid() for _ in range(4)]
+        for pos in (0, 2, 4):
+            out.append(base[:pos] + [oor()] + base[pos:])
+    out.append([oor()])
+    out.append([oor(), oor()])
+    return out
+
+
+def gen_extra(ctx):
+    """the hardening stream: yields (h, w, canonical key, form)."""
+    rng = ctx.rng
+    T = ctx.thorough
+    coord_forms = list(COORD_FORMS)
+    # -- class 1: coordinate keys in every iterable form
+    for (h, w) in S1:
+        for l in coord_lists(h, w, rng):
+            for form in coord_forms:
+                yield h, w, l, form
+    for (h, w) in SMALL + S5:
+        for _ in range(30 if T else 8):
+            yield h, w, rand_coords(h, w, rng), rng.choice(ONE_SHOT)
+    # -- class 2: run-time ints far outside the small-int cache, long axes
+    nsl, nb = (120, 600) if T else (40, 150)
+    rep = [0, -1, slice(None), slice(None, None, -1), slice(1, None, 2)]
+    for (h, w) in S2:
+        yi, ys = big_axis_keys(h, rng, nsl)
+        xi, xs = big_axis_keys(w, rng, nsl)
+        for ky in yi + ys:
+            for kx in rep:
+                yield h, w, (ky, kx), "fresh"
+        for kx in xi + xs:
+            for ky in rep:
+                yield h, w, (ky, kx), "fresh"
+        for _ in range(nb):
+            yield h, w, (rng.choice(yi + ys), rng.choice(xi + xs)), "fresh"
+        for ky in yi + ys:
+            yield h, w, ky, "fresh"
+        for _ in range(40):
+            l = rand_coords(h, w, rng, rng.randint(1, 6), 0.0)
+            if rng.random() < 0.3:
+                l.insert(rng.randint(0, len(l)), (rng.choice(yi), rng.choice(xi)))
+            yield h, w, l, rng.choice(coord_forms)
+    # -- class 5: larger shapes, steps up to +-5, both axes non-trivial
+    n5 = 6000 if T else 1200
+    for (h, w) in S5:
+        def full_rev(n, s):
+            return [slice(None, None, s), slice(n - 1, None, s), slice(-1, -n - 1, s), slice(n + 3, -n - 3, s)]
+        for sy in range(-5, 0):
+            for sx in range(-5, 0):
+                for ky in full_rev(h, sy):
+                    for kx in full_rev(w, sx):
+                        yield h, w, (ky, kx), None
+        for sy in STRIDES:
+            for sx in STRIDES:
+                yield h, w, (slice(None, None, sy), slice(None, None, sx)), None
+        for _ in range(n5):
+            yield h, w, (rand_slice(h, rng, STRIDES), rand_slice(w, rng, STRIDES)), None
+        for _ in range(n5 // 2):
+            yield h, w, (rand_slice(h, rng, [-1, -2, -3, -4, -5]), rand_slice(w, rng, [-1, -2, -3, -4, -5])), None
+        for _ in range(n5 // 2):
+            yield h, w, (rand_slice(h, rng), rand_slice(w, rng)), None
+        for y in range(-h - 1, h + 1):
+            for _ in range(6):
+                yield h, w, (y, rand_slice(w, rng)), None
+        for x in range(-w - 1, w + 1):
+            for _ in range(6):
+                yield h, w, (rand_slice(h, rng), x), None
+        for _ in range(40):
+            yield h, w, rand_slice(h, rng), None
+        for _ in range(10):
+            yield h, w, rand_coords(h, w, rng, rng.randint(20, 45), 0.02), rng.choice(coord_forms)
+    # small shapes: (slice, slice) pairs with a stride or a reversal on BOTH axes
+    bnd = [None] + list(range(-7, 8))
+    nt = [-3, -2, -1, 2, 3]
+    for (h, w) in SMALL:
+        for _ in range(1500 if T else 300):
+            yield h, w, (slice(rng.choice(bnd), rng.choice(bnd), rng.choice(nt)),
+                         slice(rng.choice(bnd), rng.choice(bnd), rng.choice(nt))), None
+    # -- class 6: bool / int-subclass / __index__ keys
+    for (h, w) in [(2, 2), (2, 3), (3, 2), (1, 2), (2, 1), (0, 2)]:
+        ax = [0, 1, -1, slice(None, None, -1)] + [slice(a, b, c) for a in (None, 0, 1) for b in (None, 0, 1) for c in (None, 1)]
+        for ky in ax:
+            yield h, w, ky, "bool"
+            for kx in ax:
+                yield h, w, (ky, kx), "bool"
+    for _ in range(6000 if T else 1500):
+        h, w = rng.choice(SMALL + S5)
+        k = rand_key2(h, w, rng)
+        if isinstance(k, list):
+            yield h, w, k, rng.choice(("intsub", "bool", "namedtuple"))
+        else:
+            yield h, w, k, rng.choice(("intsub", "index", "fresh"))
+
+
+def gen_chains(ctx):
+    """chained indexing a[k1][k2] (k1 selects an array): yields (h, w, k1, k2, dim of a[k1], expected)."""
+    rng = ctx.rng
+    shapes = [s for s in SMALL + S5 if s[0] and s[1]]
+    n = 12000 if ctx.thorough else 3000
+    for _ in range(n):
+        h, w = rng.choice(shapes)
+        k1 = rand_key2(h, w, rng)
+        p1 = pylist_get(h, w, k1)
+        if p1[0] != "ok" or p1[1][0] == "S":
+            continue
+        if p1[1][0] == "2":
+            _, h2, w2, vals = p1[1]
+            k2 = rand_key2(h2, w2, rng)
+            yield h, w, k1, k2, "2", pylist_get(h2, w2, k2, vals)
+        else:
+            vals = p1[1][1]
+            k2 = rand_axis_key(len(vals), rng)
+            yield h, w, k1, k2, "1", pylist_get1(vals, k2)
+
+
+# malformed coordinate entries: outside the model; a one-shot carrier must behave like the list carrier
+MALFORMED = [
+    [(0, 0), [0, 1]], [(0, 1, 2)], [(0,)], [(0, 0), (1.0, 1)], [(0, 0), None], ["ab"], [(0, 0), (5, 0), "x"],
+    [(5, 0), [0, 0]], [((0, 0), (1, 1))], [(0, 0), (None, 1)], [(0, slice(None))], [(1, 2), 3], [(0, 0), (1, 1), ()],
+]
+
+
+def raw_get(arr, ko):
+    def f():
+        r = arr[ko]
+        from cspuz.array import Array1D, Array2D
+        if isinstance(r, (Array1D, Array2D)):
+            want = type(arr).__name__.replace("2D", "").replace("1D", "")
+            assert type(r).__name__.startswith(want), "result class %s" % type(r).__name__
+        return r
+    return vlib.guarded(f)
+
+
+def impl_chain(arr, idx, k1, k2):
+    r1 = raw_get(arr, k1)
+    if r1[0] != "ok":
+        return r1
+    return norm_raw(raw_get(r1[1], k2), idx)
+
+
+def norm_raw(raw, idx):
+    if raw[0] != "ok":
+        return raw
+    return vlib.guarded(norm_impl, raw[1], idx)
+
+
+def key_snapshot(ko):
+    if isinstance(ko, (int, slice, tuple)):
+        return copy.deepcopy(ko)
+    return list(ko)
+
+
+def history_problems(h, w, k, form, store):
+    """same key object twice; results mutated, then re-indexed; array and key unchanged.
+    returns (expected, [(what, observed)])"""
+    akind = "int" if (h + w) % 2 else "bool"
+    if (h, w) not in store:
+        arr, data = mk_array(h, w, akind)
+        store[(h, w)] = (arr, {id(e): i for i, e in enumerate(data)})
+    arr, idx = store[(h, w)]
+    rowmajor = tuple(range(h * w))
+
+    def data_ok():
+        return (arr.shape == (h, w) and isinstance(arr.data, list)
+                and tuple(idx.get(id(e), -1) for e in arr.data) == rowmajor)
+    po = pylist_get(h, w, k)
+    probs = []
+    oneshot = isinstance(k, list) and form in ONE_SHOT
+    ko = dress(k, form)
+    before = None if oneshot else key_snapshot(ko)
+    raw1 = raw_get(arr, ko)
+    n1 = norm_raw(raw1, idx)
+    if n1 != po:
+        probs.append(("first use", n1))
+    if not oneshot and key_snapshot(ko) != before:
+        probs.append(("the key object was modified by indexing", repr(ko)))
+    raw2 = raw_get(arr, ko)
+    n2 = norm_raw(raw2, idx)
+    exp2 = po
+    if oneshot:
+        # an exhausted iterator selects nothing; one that stopped at an off-board pair resumes after it
+        bad = [i for i, (y, x) in enumerate(k) if not (-h <= y < h and -w <= x < w)]
+        exp2 = pylist_get(h, w, k[bad[0] + 1:] if bad else [])
+    if n2 != exp2:
+        probs.append(("second use of the same key object", n2))
+    for raw in (raw1, raw2):
+        if raw[0] == "ok" and hasattr(raw[1], "data"):
+            raw[1].data.reverse()
+            if raw[1].data:
+                raw[1].data.pop()
+            raw[1].data.append(None)
+    if not data_ok():
+        probs.append(("the array's data / shape changed (indexing, or mutating the returned array)",
+                      [list(arr.shape), [idx.get(id(e), -1) for e in arr.data][:40]]))
+        del store[(h, w)]
+        return po, probs
+    n3 = norm_raw(raw_get(arr, dress(k, form)), idx)
+    if n3 != po:
+        probs.append(("indexing again after the earlier result was mutated", n3))
+    return po, probs
+
+
+def alias_problems(h, w):
+    """flatten / reshape / 1-D slices return fresh row-major data (mutating them leaves the source intact)."""
+    from cspuz.array import Array1D
+    probs = []
+    rowmajor = tuple(range(h * w))
+    for akind in ("int", "bool"):
+        arr, data = mk_array(h, w, akind)
+        idx = {id(e): i for i, e in enumerate(data)}
+        a1 = (type(arr.flatten()))(data)
+
+        def ids(a):
+            return tuple(idx.get(id(e), -1) for e in a.data)
+
+        def spoil(r):
+            r.data.reverse()
+            if r.data:
+                r.data.pop()
+            r.data.append(None)
+        for name, src, f, want in [
+            ("flatten", arr, lambda: arr.flatten(), ("1", rowmajor)),
+            ("reshape", arr, lambda: arr.reshape((w, h)), ("2", w, h, rowmajor)),
+            ("reshape-1d", a1, lambda: a1.reshape((h, w)), ("2", h, w, rowmajor)),
+            ("slice-1d", a1, lambda: a1[:], ("1", rowmajor)),
+            ("slice-1d-rev", a1, lambda: a1[::-1], ("1", rowmajor[::-1])),
+            ("full-2d", arr, lambda: arr[:, :], ("2", h, w, rowmajor)),
+            ("full-2d-single", arr, lambda: arr[:], ("2", h, w, rowmajor)),
+        ]:
+            for rnd in (1, 2):
+                r = vlib.guarded(f)
+                got = norm_raw(r, idx)
+                if got != ("ok", want):
+                    probs.append((akind, name, "call %d" % rnd, got, want))
+                if r[0] == "ok":
+                    spoil(r[1])
+                if ids(src) != rowmajor or (isinstance(src, Array1D) and src.shape != (h * w,)) or \
+                        (not isinstance(src, Array1D) and src.shape != (h, w)):
+                    probs.append((akind, name, "source changed after mutating the result", ids(src)[:40], rowmajor[:40]))
+                    return probs
+    return probs
+
+
+NEST_FORMS = {
+    "list-of-lists": lambda rows: [list(r) for r in rows],
+    "tuple-of-tuples": lambda rows: tuple(tuple(r) for r in rows),
+    "gen-of-gens": lambda rows: ((e for e in r) for r in rows),
+    "map-iter": lambda rows: map(iter, rows),
+    "list-of-gens": lambda rows: [(e for e in r) for r in rows],
+    "iter-of-lists": lambda rows: iter([list(r) for r in rows]),
+    "zip-cols": lambda rows: zip(*[[r[x] for r in rows] for x in range(len(rows[0]))]) if rows[0] else [() for _ in rows],
+    "reversed": lambda rows: reversed([list(r) for r in rows][::-1]),
+}
+
+
+def construct_problems(h, w, form):
+    """an array built from a nested iterable IS that list of lists: shape, row-major data, a[y, x] is rows[y][x]."""
+    from cspuz.array import IntArray2D, BoolArray2D, IntArray1D, BoolArray1D
+    from cspuz.expr import IntVar, BoolVar
+    probs = []
+    for akind in ("int", "bool"):
+        flat = [IntVar(i, 0, 1) for i in range(h * w)] if akind == "int" else [BoolVar(i) for i in range(h * w)]
+        idx = {id(e): i for i, e in enumerate(flat)}
+        rows = [flat[y * w:(y + 1) * w] for y in range(h)]
+        C2, C1 = (IntArray2D, IntArray1D) if akind == "int" else (BoolArray2D, BoolArray1D)
+        want = ("ok", ("2", h, w, tuple(range(h * w))))
+        got = vlib.guarded(lambda: norm_impl(C2(NEST_FORMS[form](rows)), idx))
+        if got != want:
+            probs.append((akind, "nested", got, want))
+        elif h and w:
+            a = C2(NEST_FORMS[form](rows))
+            bad = [(y, x) for y in range(h) for x in range(w) if a[y, x] is not rows[y][x] or a[y][x] is not rows[y][x]]
+            if bad:
+                probs.append((akind, "cells", bad[:5], []))
+        for nm, mk in (("flat-gen", lambda: C2((e for e in flat), (h, w))), ("flat-iter", lambda: C2(iter(flat), (h, w))),
+                       ("flat-map", lambda: C2(map(lambda e: e, flat), (h, w)))):
+            got = vlib.guarded(lambda: norm_impl(mk(), idx))
+            if got != want:
+                probs.append((akind, nm, got, want))
+        for nm, mk in (("1d-gen", lambda: C1(e for e in flat)), ("1d-reversed", lambda: C1(reversed(flat[::-1])))):
+            got = vlib.guarded(lambda: norm_impl(mk(), idx))
+            if got != ("ok", ("1", tuple(range(h * w)))):
+                probs.append((akind, nm, got, ("1", tuple(range(h * w)))))
+    return probs
+
+
 def correspond(ctx):
     m = ctx.model("C13")
     arrays = {}
+    ctx._c13_arrays = arrays
+
+    def array_for(h, w):
+        if (h, w) not in arrays:
+            arr, data = mk_array(h, w, "int" if (h + w) % 2 == 0 else "bool")
+            arrays[(h, w)] = (arr, {id(e): i for i, e in enumerate(data)})
+        return arrays[(h, w)]
     reqs, cases = [], []
     for (h, w, k) in gen_cases(ctx):
-        kind = "int" if (h + w) % 2 == 0 else "bool"
-        if (h, w) not in arrays:
-            arr, data = mk_array(h, w, kind)
-            arrays[(h, w)] = (arr, {id(e): i for i, e in enumerate(data)})
         reqs.append("G2 %d %d %s" % (h, w, key2_tok(k)))
         reqs.append("P2 %d %d %s" % (h, w, key2_tok(k)))
         cases.append((h, w, k))
     outs = m.batch(reqs)
     ctx._c13 = []
     for i, (h, w, k) in enumerate(cases):
-        arr, idx = arrays[(h, w)]
+        arr, idx = array_for(h, w)
         mo = parse_reply(outs[2 * i])
         so = parse_reply(outs[2 * i + 1])
         io = impl_get(arr, idx, k)
         kk = ("L", tuple(k)) if isinstance(k, list) else key_repr(k)
         ctx.corr("getitem2", (h, w, repr(kk)), mo, io)
-        ctx._c13.append((h, w, k, so, io))
+        ctx._c13.append((h, w, k, None, so, io))
+    # hardening stream: the same tie, the key handed to cspuz in its FORM (the model sees the canonical key)
+    reqs, cases, seen = [], [], {}
+    for (h, w, k, form) in gen_extra(ctx):
+        tok = "%d %d %s" % (h, w, key2_tok(k))
+        if tok not in seen:
+            seen[tok] = len(reqs)
+            reqs.append("G2 " + tok)
+            reqs.append("P2 " + tok)
+        cases.append((h, w, k, form, seen[tok]))
+    outs = m.batch(reqs)
+    for (h, w, k, form, j) in cases:
+        arr, idx = array_for(h, w)
+        mo, so = parse_reply(outs[j]), parse_reply(outs[j + 1])
+        io = impl_get(arr, idx, dress(k, form))
+        ctx.count("form:%s" % form)
+        ctx.corr("getitem2-form", (h, w, repr(kk_of(k)), form), mo, io)
+        ctx._c13.append((h, w, k, form, so, io))
+    # chained indexing: the model applied to its own result
+    chains = list(gen_chains(ctx))
+    outs = m.batch(["CH %d %d %s ; %s" % (h, w, key2_tok(k1), key2_tok(k2) if dim == "2" else "1 " + key_tok(k2))
+                    for (h, w, k1, k2, dim, po) in chains])
+    ctx._c13_chains = []
+    for (h, w, k1, k2, dim, po), o in zip(chains, outs):
+        arr, idx = array_for(h, w)
+        io = impl_chain(arr, idx, k1, k2)
+        ctx.corr("getitem-chain", (h, w, repr(kk_of(k1)), repr(kk_of(k2))), parse_reply(o), io)
+        ctx._c13_chains.append((h, w, k1, k2, po, io))
     # 1-D arrays, flatten, reshape
     from cspuz.array import IntArray1D, BoolArray1D
     from cspuz.expr import IntVar, BoolVar
@@ -200,20 +739,45 @@ def correspond(ctx):
         idx = {id(e): i for i, e in enumerate(data)}
         io = impl_get(arr, idx, k)
         ctx.corr("getitem1", (n, repr(key_repr(k))), parse_reply(o), io)
+    # hardening: 1-D arrays with run-time big ints (a long axis too) and bool / int-subclass / __index__ keys
     reqs, cases = [], []
-    for n in range(0, 13):
-        for h in range(0, 5):
-            for w in range(0, 5):
-                reqs.append("RS %d %d %d" % (n, h, w))
-                cases.append((n, h, w))
+    for n in (0, 3, 260, 300):
+        ints, sl = big_axis_keys(n, ctx.rng, 150 if ctx.thorough else 60)
+        for k in ints + sl:
+            cases.append((n, k, "fresh"))
+    for n in range(0, 6):
+        for _ in range(60):
+            cases.append((n, rand_axis_key(n, ctx.rng), ctx.rng.choice(("intsub", "bool", "index"))))
+    for n in (1, 2, 3):
+        for k in [0, 1, -1] + [slice(a, b, c) for a in (None, 0, 1) for b in (None, 0, 1) for c in (None, 1, -1)]:
+            cases.append((n, k, "bool"))
+    outs = m.batch(["G1 %d %s" % (n, key_tok(k)) for (n, k, form) in cases])
+    arr1 = {}
+    ctx._c13_1d = []
+    for (n, k, form), o in zip(cases, outs):
+        if n not in arr1:
+            data = [IntVar(i, 0, 1) for i in range(n)] if n % 2 else [BoolVar(i) for i in range(n)]
+            arr1[n] = (IntArray1D(data) if n % 2 else BoolArray1D(data), {id(e): i for i, e in enumerate(data)})
+        arr, idx = arr1[n]
+        io = impl_get(arr, idx, dress(k, form))
+        ctx.count("form1d:%s" % form)
+        ctx.corr("getitem1-form", (n, repr(key_repr(k)), form), parse_reply(o), io)
+        ctx._c13_1d.append((n, k, form, io))
+    ctx._c13_arr1 = arr1
+    reqs, cases = [], []
+    big_rs = [(300, 1, 300), (300, 300, 1), (300, 15, 20), (300, 20, 15), (300, 2, 150), (300, 299, 1), (300, 17, 18),
+              (0, 4294967297, 0), (0, 0, 2 ** 61 + 1), (1, 2 ** 64, 0), (1, 10 ** 30, 10 ** 30), (258, 2, 129), (258, 129, 2), (257, 257, 1), (257, 1, 256)]
+    for (n, h, w) in [(n, h, w) for n in range(0, 13) for h in range(0, 5) for w in range(0, 5)] + big_rs:
+        reqs.append("RS %d %d %d" % (n, h, w))
+        cases.append((n, h, w))
     outs = m.batch(reqs)
     for (n, h, w), o in zip(cases, outs):
         data = [IntVar(i, 0, 1) for i in range(n)]
         idx = {id(e): i for i, e in enumerate(data)}
         a1 = IntArray1D(data)
-        io = vlib.guarded(lambda: norm_impl(a1.reshape((h, w)), idx))
+        io = vlib.guarded(lambda: norm_impl(a1.reshape((_fresh(h), _fresh(w))), idx))
         ctx.corr("reshape1", (n, h, w), parse_reply(o), io)
-        if n == h * w:
+        if n == h * w and n < 200:
             from cspuz.array import IntArray2D
             a2 = IntArray2D(data, (h, w))
             for (h2, w2) in [(w, h), (1, n), (n, 1), (h, w + 1)]:
@@ -224,30 +788,131 @@ def correspond(ctx):
             ctx.corr("flatten", (h, w), ("ok", ("1", tuple(range(n)))), io)
 
 
+def _vkey(h, w, kk, form):
+    return "getitem:%dx%d:%r" % (h, w, kk) + (":" + form if form else "")
+
+
+def _prop_stream(ctx):
+    """(h, w, key, form, spec outcome or None, implementation outcome) for every indexed case."""
+    got = getattr(ctx, "_c13", None)
+    if got:
+        for t in got:
+            yield t
+        return
+    # correspondence could not run (model build broken): run the implementation directly
+    store = {}
+    for (h, w, k, form) in itertools.chain(((h, w, k, None) for (h, w, k) in gen_cases(ctx)), gen_extra(ctx)):
+        if (h, w) not in store:
+            arr, data = mk_array(h, w, "int")
+            store[(h, w)] = (arr, {id(e): i for i, e in enumerate(data)})
+        arr, idx = store[(h, w)]
+        yield h, w, k, form, None, impl_get(arr, idx, dress(k, form))
+
+
 def search(ctx):
     """the property itself: implementation vs real Python lists of lists; also the
     Coq specification vs real Python lists (validation of the trusted spec)."""
-    for (h, w, k, so, io) in getattr(ctx, "_c13", []):
+    rng = ctx.rng
+    hist = []
+    for (h, w, k, form, so, io) in _prop_stream(ctx):
         po = pylist_get(h, w, k)
-        kk = ("L", tuple(k)) if isinstance(k, list) else key_repr(k)
-        ctx.prop_case("impl-vs-pylist", (h, w, repr(kk)))
-        if so != po:
+        kk = kk_of(k)
+        if form is None:
+            ctx.prop_case("impl-vs-pylist", (h, w, repr(kk)))
+        else:
+            ctx.prop_case("impl-vs-pylist-form", (h, w, repr(kk), form))
+        if so is not None and so != po:
             ctx.mismatches.append({"kind": "spec-vs-pylist", "input": [h, w, repr(kk)], "model": so, "impl": po})
         if io != po:
-            ctx.violation("getitem:%dx%d:%r" % (h, w, kk), "a[key] differs from the nested-list result",
-                          {"shape": [h, w], "key": repr(kk), "python_lists": po, "cspuz": io})
-    if not getattr(ctx, "_c13", None):
-        # correspondence could not run (model build broken): run the oracle directly
-        for (h, w, k) in gen_cases(ctx):
+            d = {"shape": [h, w], "key": repr(kk), "python_lists": po, "cspuz": io}
+            if form:
+                d["form"] = form
+            ctx.violation(_vkey(h, w, kk, form), "a[key] differs from the nested-list result"
+                          + (" (key given as %s)" % form if form else ""), d)
+        # histories: every hardening case, a sample of the exhaustive ones
+        if form is not None or rng.random() < (0.1 if ctx.deep else 0.03):
+            hist.append((h, w, k, form))
+    # chained indexing a[k1][k2] vs the same two steps on Python lists
+    chains = getattr(ctx, "_c13_chains", None)
+    if chains is None:
+        chains = []
+        for (h, w, k1, k2, dim, po) in gen_chains(ctx):
             arr, data = mk_array(h, w, "int")
-            idx = {id(e): i for i, e in enumerate(data)}
-            io = impl_get(arr, idx, k)
-            po = pylist_get(h, w, k)
-            kk = ("L", tuple(k)) if isinstance(k, list) else key_repr(k)
-            ctx.prop_case("impl-vs-pylist", (h, w, repr(kk)))
-            if io != po:
-                ctx.violation("getitem:%dx%d:%r" % (h, w, kk), "a[key] differs from the nested-list result",
-                              {"shape": [h, w], "key": repr(kk), "python_lists": po, "cspuz": io})
+            chains.append((h, w, k1, k2, po, impl_chain(arr, {id(e): i for i, e in enumerate(data)}, k1, k2)))
+    for (h, w, k1, k2, po, io) in chains:
+        kk1, kk2 = kk_of(k1), kk_of(k2)
+        ctx.prop_case("chain-vs-pylist", (h, w, repr(kk1), repr(kk2)))
+        if io != po:
+            ctx.violation("chain:%dx%d:%r:%r" % (h, w, kk1, kk2), "a[k1][k2] differs from the nested-list result",
+                          {"check": "chain", "shape": [h, w], "key": repr(kk1), "key2": repr(kk2),
+                           "python_lists": po, "cspuz": io})
+    # 1-D arrays in key forms vs a real Python list; the shared 1-D arrays are unchanged
+    for (n, k, form, io) in getattr(ctx, "_c13_1d", []):
+        po = pylist_get1(range(n), k)
+        ctx.prop_case("impl1d-vs-pylist-form", (n, repr(key_repr(k)), form))
+        if io != po:
+            ctx.violation("getitem1:%d:%r:%s" % (n, key_repr(k), form), "a[key] on a 1-D array differs from the list result",
+                          {"check": "1d", "shape": [n, 1], "key": repr(key_repr(k)), "form": form, "python_lists": po, "cspuz": io})
+    for n, (arr, idx) in sorted(getattr(ctx, "_c13_arr1", {}).items()):
+        ctx.prop_case("data-unchanged-1d", (n,))
+        now = [idx.get(id(e), -1) for e in arr.data]
+        if arr.shape != (n,) or now != list(range(n)):
+            ctx.violation("data-changed-1d:%d" % n, "indexing modified the 1-D array it was applied to",
+                          {"check": "data", "shape": [n, 1], "shape_now": list(arr.shape), "data_now": now[:60]})
+    # class 3: same key object twice, results mutated then re-indexed, array / key unchanged
+    store = {}
+    for (h, w, k, form) in hist:
+        po, probs = history_problems(h, w, k, form, store)
+        kk = kk_of(k)
+        ctx.prop_case("history", (h, w, repr(kk), form))
+        if probs:
+            ctx.violation("history:" + _vkey(h, w, kk, form), "indexing is not repeatable / aliases state: " + probs[0][0],
+                          {"check": "history", "shape": [h, w], "key": repr(kk), "form": form, "python_lists": po,
+                           "problems": [[a, repr(b)] for a, b in probs]})
+    for (h, w) in sorted(set(SMALL + S5 + [(0, 5), (1, 300)])):
+        ctx.prop_case("alias", (h, w))
+        probs = alias_problems(h, w)
+        if probs:
+            ctx.violation("alias:%dx%d:%s" % (h, w, probs[0][1]), "flatten / reshape / full slice is not a fresh row-major copy",
+                          {"check": "alias", "shape": [h, w], "problems": [repr(p) for p in probs[:5]]})
+    # the arrays shared by all correspondence cases must still be what they were
+    for (h, w), (arr, idx) in sorted(getattr(ctx, "_c13_arrays", {}).items()):
+        ctx.prop_case("data-unchanged", (h, w))
+        now = [idx.get(id(e), -1) for e in arr.data]
+        if arr.shape != (h, w) or now != list(range(h * w)):
+            ctx.violation("data-changed:%dx%d" % (h, w), "indexing modified the array it was applied to",
+                          {"check": "data", "shape": [h, w], "shape_now": list(arr.shape), "data_now": now[:60]})
+    # class 1 at construction: nested one-shot iterables are the list of lists they yield
+    for (h, w) in [(1, 0), (1, 1), (1, 4), (2, 3), (3, 2), (4, 4), (3, 10), (7, 7), (1, 300)]:
+        for form in NEST_FORMS:
+            ctx.prop_case("construct", (h, w, form))
+            probs = construct_problems(h, w, form)
+            if probs:
+                ctx.violation("construct:%dx%d:%s" % (h, w, form), "an array built from nested iterables is not that list of lists",
+                              {"check": "construct", "shape": [h, w], "form": form, "problems": [repr(p) for p in probs[:5]]})
+    # malformed coordinate entries: outside the model; the carrier of the entries must not matter
+    from cspuz.array import Array1D
+    arr, data = mk_array(2, 3, "bool")
+    idx = {id(e): i for i, e in enumerate(data)}
+    for mi, l in enumerate(MALFORMED):
+        ref = norm_raw(raw_get(arr, list(l)), idx)
+        for form in STRUCT_FORMS:
+            ctx.prop_case("malformed-form-vs-list", (mi, form))
+            got = norm_raw(raw_get(arr, COORD_FORMS[form](list(l))), idx)
+            if got != ref or got[0] == "ok":
+                ctx.violation("malformed:%d:%s" % (mi, form), "an index array with a malformed entry behaves differently when "
+                              "given as %s than as a list (or is accepted)" % form,
+                              {"check": "malformed", "shape": [2, 3], "entries": repr(l), "form": form,
+                               "as_list": ref, "as_form": got})
+
+
+def _unkk(kk):
+    one = lambda x: eval(x, {"slice": slice}) if isinstance(x, str) else x  # noqa  (reprs written by this harness)
+    if isinstance(kk, tuple) and kk and kk[0] == "L":
+        return list(kk[1])
+    if isinstance(kk, list):
+        return (one(kk[0]), one(kk[1]))
+    return one(kk)
 
 
 def replay(ctx, rp):
@@ -256,13 +921,47 @@ def replay(ctx, rp):
     if not v:
         return 0
     h, w = v["shape"]
-    k = eval(v["key"], {"slice": slice})  # keys are reprs of ints/slices/tuples written by this harness
-    if isinstance(k, tuple) and k and k[0] == "L":
-        k = list(k[1])
-    elif isinstance(k, list):
-        k = tuple(eval(x, {"slice": slice}) if isinstance(x, str) else x for x in k)
+    check = v.get("check")
+    if check == "alias":
+        probs = alias_problems(h, w)
+        print("problems:", probs[:5])
+        return 1 if probs else 0
+    if check == "construct":
+        probs = construct_problems(h, w, v["form"])
+        print("problems:", probs[:5])
+        return 1 if probs else 0
+    if check == "data":
+        print("array data changed during the run; re-run ./check C13")
+        return 1
     arr, data = mk_array(h, w, "int")
     idx = {id(e): i for i, e in enumerate(data)}
-    io, po = impl_get(arr, idx, k), pylist_get(h, w, k)
-    print("cspuz:", io, " python lists:", po)
+    if check == "malformed":
+        l = eval(v["entries"], {"slice": slice})
+        ref = norm_raw(raw_get(arr, list(l)), idx)
+        got = norm_raw(raw_get(arr, COORD_FORMS[v["form"]](list(l))), idx)
+        print("as list:", ref, " as", v["form"], ":", got)
+        return 1 if got != ref or got[0] == "ok" else 0
+    k = _unkk(eval(v["key"], {"slice": slice}))
+    form = v.get("form")
+    if check == "1d":
+        from cspuz.array import IntArray1D
+        from cspuz.expr import IntVar
+        data = [IntVar(i, 0, 1) for i in range(h)]
+        io = impl_get(IntArray1D(data), {id(e): i for i, e in enumerate(data)}, dress(k, form))
+        po = pylist_get1(range(h), k)
+        print("cspuz:", io, " python list:", po, " form:", form)
+        return 1 if io != po else 0
+    if check == "chain":
+        k2 = _unkk(eval(v["key2"], {"slice": slice}))
+        p1 = pylist_get(h, w, k)[1]
+        po = pylist_get(p1[1], p1[2], k2, p1[3]) if p1[0] == "2" else pylist_get1(p1[1], k2)
+        io = impl_chain(arr, idx, k, k2)
+        print("cspuz:", io, " python lists:", po)
+        return 1 if io != po else 0
+    if check == "history":
+        po, probs = history_problems(h, w, k, form, {})
+        print("python lists:", po, " problems:", probs)
+        return 1 if probs else 0
+    io, po = impl_get(arr, idx, dress(k, form)), pylist_get(h, w, k)
+    print("cspuz:", io, " python lists:", po, " form:", form)
     return 1 if io != po else 0
